@@ -42,11 +42,22 @@ theorem WFB_struct {p len v fs cached next seen} (h : WFB (.struct p len v fs ca
 theorem WFB_dictionary {p idx vals index} (h : WFB (.dictionary p idx vals index)) :
     WFB idx ∧ WFB vals ∧ (dec vals).length = index.length := by
   simp only [WFB] at h; exact ⟨h.1, h.2.1, h.2.2.2.1⟩
+theorem mem_zip_of_getElem? {α β} (xs : List α) (ys : List β) (i : Nat) (x : α) (y : β)
+    (hx : xs[i]? = some x) (hy : ys[i]? = some y) : (x, y) ∈ xs.zip ys := by
+  rw [List.mem_iff_getElem?]
+  exact ⟨i, by simp [List.getElem?_zip_eq_some, hx, hy]⟩
+
+/-- (accepts both statements of the union clause: by index, or over `types.zip offs`) -/
 theorem WFB_union {p fs types offs cur} (h : WFB (.union p fs types offs cur)) :
     types.length = offs.length ∧ WFU fs cur ∧
     (∀ (i : Nat) (t o : Int), types[i]? = some t → offs[i]? = some o →
       0 ≤ t ∧ 0 ≤ o ∧ ∃ c, fs.get? t.toNat = some c ∧ o.toNat < (dec c.1).length) := by
-  simp only [WFB] at h; exact ⟨h.1, h.2.2.1, h.2.2.2⟩
+  simp only [WFB] at h
+  refine ⟨h.1, h.2.2.1, ?_⟩
+  first
+  | exact h.2.2.2
+  | (intro i t o ht ho
+     exact h.2.2.2 (t, o) (mem_zip_of_getElem? types offs i t o ht ho))
 
 /-- every child of a builder list satisfies the state invariant -/
 def WFBs : BL → Prop
